@@ -109,7 +109,7 @@ impl Exec {
         if executed_of_ours.len() != expected_order.len() {
             // a write the model expects to be queued was acknowledged without ever being executed by the worker
             let missing: Vec<String> = cmds.iter().filter(|pending| !executed_of_ours.contains(&(pending.ack.verif_id() as usize))).map(|pending| Self::describe(&pending.cmd)).collect();
-            self.soft(Failure::new("C11", "C11/acknowledged-but-never-executed", format!("{:?} were acknowledged but the command worker never executed them (submitted: {:?})", missing, cmds.iter().map(|pending| Self::describe(&pending.cmd)).collect::<Vec<_>>())))?;
+            self.soft(Failure::new("C11", "C11/acknowledged-but-never-executed", format!("{:?} were acknowledged but the command worker never executed them (submitted: {:?})", missing, cmds.iter().map(|pending| Self::describe(&pending.cmd)).collect::<Vec<_>>())).with_also(vec!["C12".to_string()]))?;
         }
         let many = cmds.len() > 1;
         for (pending, status) in cmds.into_iter().zip(statuses.into_iter()) {
